@@ -551,3 +551,88 @@ def equal_length_classes(ctx, prog, rule):
                 if field_assignments(f, adt, fld):
                     bad.append((short(p), "assignment"))
             ctx.ob(rule, "never-resized/%s.%s" % (adt.split("::")[-1], fld), not bad, "%s.%s is created with prototype.len() entries and the vector itself is never resized or replaced afterwards: %s" % (adt.split("::")[-1], fld, bad or "no resizing call"))
+
+
+def xml_parser_options(ctx, prog, rule):
+    """the XML section is untrusted: it has to be parsed with DTDs disabled (roxmltree's default), otherwise internal
+    entities are expanded and a few bytes of input grow without bound (entity expansion)"""
+    rs = panic_rules.roots(prog, "reader")
+    reach_set = prog.reachable_from(rs)
+    n = 0
+    for p in sorted(reach_set):
+        f = prog.fns[p]
+        R = None
+        for bi, t in f.calls(lambda c, t: "roxmltree" in c and c.rsplit("::", 1)[-1] in ("parse", "parse_with_options")):
+            n += 1
+            ctx.fn_seen(f)
+            c = callee_of(t)
+            if c.endswith("::parse"):
+                ctx.ob(rule, "xml-parser/%s/default-options" % short(p), True, "Document::parse uses the default options (DTD rejected)", where=f.file_line(bi), nontrivial=False)
+                continue
+            R = R or Resolver(f)
+            o = strip(R.operand(t["args"][-1]))
+            ok, why = False, tree_str(strip_deep(o))[:120]
+            if o[0] == "call" and o[1].endswith("Default>::default"):
+                ok = True
+            elif o[0] == "agg" and o[1][0] == "adt" and "allow_dtd" in o[1][3]:
+                v = strip(o[2][o[1][3].index("allow_dtd")])
+                ok = (v[0] == "const" and v[2] in (0, False)) or (v[0] == "field" and strip(v[1])[0] == "call" and strip(v[1])[1].endswith("Default>::default"))
+            ctx.ob(rule, "xml-parser/%s/allow_dtd" % short(p), ok, "parse_with_options(%s): allow_dtd must be false for untrusted input" % why, where=f.file_line(bi))
+    ctx.floor(rule, "XML parser entry points reachable from the reader API", n, 1, semantic=False)
+
+
+_GROW = ("push", "push_back", "push_front", "insert", "extend", "extend_from_slice", "append")
+_SCAN = ("contains", "position", "rposition", "any", "all", "find", "find_map", "binary_search", "count", "max", "min", "sum", "last", "nth", "rfind", "starts_with", "ends_with")
+_ALLOC = ("new", "with_capacity", "default", "from_elem")
+
+
+def _alloc_nodes(t):
+    """allocation sites (Vec::new() at block b, ..) a collection expression is rooted in"""
+    out = set()
+    for x in leaves(t):
+        if x[0] == "call" and x[1].rsplit("::", 1)[-1].split("<")[0] in _ALLOC and ("Vec" in x[1] or "VecDeque" in x[1] or "String" in x[1] or "HashMap" in x[1] or "BTreeMap" in x[1]) and len(x) > 3:
+            out.add((x[1], x[3]))
+    return out
+
+
+def no_growing_rescan(ctx, prog, rule, kind="reader"):
+    """work per call is linear in the input: a loop that appends to a collection must not scan that same collection on
+    every trip (duplicate checks by linear search make parsing quadratic in an input-controlled count)"""
+    rs = panic_rules.roots(prog, kind)
+    reach_set = prog.reachable_from(rs)
+    n = 0
+    for p in sorted(reach_set):
+        f = prog.fns[p]
+        loops = natural_loops(f)
+        if not loops:
+            continue
+        R = Resolver(f, max_depth=16)
+        for h, body in sorted(loops.items()):
+            grown = set()
+            for bi, t in f.calls(lambda c, t: c.rsplit("::", 1)[-1].split("<")[0] in _GROW):
+                if bi in body and t["args"]:
+                    grown |= _alloc_nodes(R.operand(t["args"][0]))
+            grown = {g for g in grown if g[1] not in body}           # allocated outside the loop, grown inside it
+            if not grown:
+                continue
+            n += 1
+            ctx.fn_seen(f)
+            bad = []
+            # inner loops over the growing collection
+            for h2, body2 in loops.items():
+                if h2 == h or h2 not in body or not body2 < body:
+                    continue
+                for b in body2:
+                    t = f.blocks[b]["term"]
+                    if t["k"] == "call" and callee_of(t).rsplit("::", 1)[-1] == "next" and t["args"]:
+                        if _alloc_nodes(R.operand(t["args"][0])) & grown:
+                            bad.append("loop at %s iterates it" % f.file_line(h2))
+            # hidden loops: linear-search calls on the growing collection
+            for bi, t in f.calls(lambda c, t: c.rsplit("::", 1)[-1].split("<")[0] in _SCAN):
+                if bi in body and t["args"] and _alloc_nodes(R.operand(t["args"][0])) & grown and not ("HashMap" in callee_of(t) or "HashSet" in callee_of(t) or "BTree" in callee_of(t)):
+                    bad.append("%s at %s scans it" % (short(callee_of(t)), f.file_line(bi)))
+            ordinal = sorted(loops).index(h)
+            ctx.ob(rule, "growing-rescan/%s/loop-%d" % (short(p), ordinal), not bad,
+                   "%s: the loop at %s appends to a collection allocated before it; %s" % (short(p), f.file_line(h), "; ".join(sorted(set(bad))) if bad else "no trip scans that collection"),
+                   where=f.file_line(h), nontrivial=False)
+    ctx.floor(rule, "appending loops reachable from the %s API" % kind, n, 3, semantic=False)
